@@ -37,12 +37,16 @@ ASSUMPTIONS = [
     "context names avoid 'template', 'sequence' and 'self' (they collide with the API's own parameters)",
 ]
 
+# Documentation only (never consulted by the verdict): the mechanism keys this check emits on the unchanged tree.
+# The eleven opacity keys share one root cause (values are inserted unshielded and later passes re-scan them);
+# "strict-rejects-loop-bound-name" is a separate Part A defect of translate()'s textual required-variable pre-scan.
 KNOWN_KEYS_EXPECTED = [
     "opacity:loop-item->loop-specials", "opacity:loop-item->include", "opacity:loop-item->variables",
     "opacity:included-output->parent-variables",
     "opacity:filtered->default", "opacity:filtered->optional", "opacity:filtered->simple",
     "opacity:default->default", "opacity:default->optional", "opacity:default->simple",
     "opacity:optional->simple",
+    "strict-rejects-loop-bound-name",
 ]
 
 _MON = {}
@@ -83,8 +87,8 @@ def teardown_shard(ctx):
         ctx.count(k, v)
 
 
-NB = {"quick": 200, "thorough": 3000}
-NA = {"quick": 20000, "thorough": 300000}
+NB = {"quick": 300, "thorough": 5000}      # Part B hosts (x 429 slot/sentinel combinations each)
+NA = {"quick": 30000, "thorough": 500000}  # Part A template sets (x 5 contexts each)
 CTX_PER_CASE = 5
 
 
